@@ -6,7 +6,7 @@ correspondence: the regenerated tables run by the extracted interpreter vs the r
                 unconvertible texts); texts converted by the C library's strtod/strtol on both sides
 oracle:         an independent Python statement of the documented wiring: a valid file must come back field by field,
                 an omission or a sign violation must be an exception."""
-import random, math, json, os, shutil, ctypes, subprocess, sys
+import math, random, math, json, os, shutil, ctypes, subprocess, sys
 import vlib
 from vlib import hx, unhx
 
@@ -429,7 +429,45 @@ def run(ck):
             fails.append((i, "sign_violation_rejected (%s was accepted)" % c["what"]))
         elif c["kind"] == "conv" and im[0] != "EXC":
             fails.append((i, "unconvertible_text_rejected (%s was accepted)" % c["what"]))
-    ck.cov["evaluations"] = len(cases)
+    # ---- "the values then govern the run they are named after": time step, duration and sampling period as the real solver
+    # consumes them (solver::run on small tissues; step not dividing the period, period a few ulps above the step, duration off
+    # the grid of steps); the oracle is the one of C19 (one step per iteration until T, file k at the first iteration whose time
+    # reaches (k-1) S, K within one of T/S + 1)
+    gov_fails = []; ngov = 0
+    try:
+        import importlib
+        c19 = importlib.import_module("checks.c19")
+        rimpl = vlib.build_driver("run", wrap_clock=True)
+        grng = random.Random(ck.seed * 977 + 18)
+        gcases = [c19.gen_case(grng, "c18g%d" % i, forced=f) for i, f in enumerate((["noncomm", "noncomm", "S~dt", "steady", "noncomm"] * (1 if ck.tier == "quick" else 8)))]
+        for gc in gcases:
+            try:
+                r = vlib.run([rimpl], input=gc["line"] + "\n", timeout=c19.RUN_TIMEOUT, env={"OMP_NUM_THREADS": "1"})
+            except Exception:
+                continue
+            if r.returncode != 0 or not r.stdout.startswith("ITS") or " # END " not in r.stdout:
+                continue
+            try:
+                its_, end_, cf_, ff_, rows_ = c19.parse_out(r.stdout)
+            except Exception:
+                continue
+            if end_["exc"] != "-":
+                continue
+            ngov += 1
+            f = c19.oracle(gc, its_, end_, cf_, ff_, rows_, None)
+            if f is None:
+                # cadence: file k must be written by the first iteration that starts at a time >= (k-1) S
+                counters = [it["file"] for it in its_] + [end_["file"]]
+                for j, it in enumerate(its_):
+                    want = int(math.floor(it["t"] / gc["S"] * (1 + 1e-12) + 1e-12)) + 1
+                    if abs(counters[j + 1] - want) > 1:
+                        f = "sampling_period_governs_the_files (after the iteration starting at t = %r the file counter is %d, floor(t/S)+1 = %d; S = %r, dt = %r)" % (it["t"], counters[j + 1], want, gc["S"], gc["dt"]); break
+            if f:
+                gov_fails.append((gc, f))
+    except vlib.BuildError as e:
+        ck.notes["governs_the_run"] = "driver build failed: " + str(e)[-200:]
+    ck.notes["runs_checking_that_dt_S_T_govern_the_run"] = ngov
+    ck.cov["evaluations"] = len(cases) + ngov
     ck.cov["distinct_nontrivial"] = nontriv
     ck.cov["traces_validated_against_impl"] = len(cases) - len(broken)
     ck.notes["input_distribution"] = dist
@@ -442,6 +480,8 @@ def run(ck):
             continue
         seen.add(k2)
         ck.report(dict(xml=cases[i]["xml"], what=cases[i]["what"], implementation=(outs[i] or "")[:1500]), oracle=key, key="params:" + k2, what="parameter file: " + f)
+    for gc, f in gov_fails[:1]:
+        ck.report(dict(input=gc["line"][:100000], dt=gc["dt"], S=gc["S"], T=gc["T"]), oracle="value_governs_the_run", key="params:governs:" + f.split(" ")[0], what="time_step / sampling_period / simulation_duration do not govern the run as named: " + f)
     if not ck.violations:
         if not ok:
             ck.report(dict(log=ck.proof_res["log"][-3000:], translator=tr.stdout[-1000:]), unchecked="Properties_C18.vo (theorems over the tables regenerated from parameter_reader.cpp)", what="proof obligations of C18 no longer check")
